@@ -1,3 +1,5 @@
+//go:build verif_c10
+
 package main
 
 // C10 — number-format rendering. Transcript ops (see lean/XlModel/Drv/C10.lean):
